@@ -10,14 +10,14 @@ LEVEL = "exploration"
 RULE = ("(a) Law cases: three matrices, a point and a rectangle with Fraction/int components (dyadic and thirds); "
         "all helper results must equal an independent 3x3 row-vector reference and satisfy associativity, identity, "
         "composition, translate_matrix == mult((1,0,0,1,v),m), norm == pt - pt(0), rect == hull of 4 corners, exactly. "
-        "(b) Model-based histories: op lists add/remove/re-add of a removed object/find/iter/len/in on utils.Plane (drawn bounds incl. negative "
+        "(b) Model-based histories: op lists add/remove/re-add of a removed object/add of a live object/find/iter/len/in on utils.Plane (drawn bounds incl. negative "
         "and fractional origins, grid 50/7/1, boxes on/across/outside grid lines and bounds) against a list model: "
         "find returns no duplicates, only live properly-overlapping objects, and every live properly-overlapping "
         "object when object and query both reach into the index bounds; iteration = live objects in insertion order. "
         "Non-trivial (b) = a find after a removal that would have matched the removed object, or an edge exactly on a "
         "grid line/bound; non-trivial (a) = all three matrices non-identity with non-zero off-diagonal terms. "
         "Distinct by case encoding.")
-ASSUMPTIONS = ["add inserts a fresh object or one that was removed before (never one that is live) and remove targets a live one",
+ASSUMPTIONS = ["add inserts a fresh object, one that was removed before, or one that is live (then nothing changes: the index is documented as set-like); remove targets a live one",
                "completeness of find is claimed only when query and object both intersect the index bounds "
                "(the index is declared to cover its bbox only)"]
 
@@ -123,8 +123,8 @@ def run_hist(case):
     from pdfminer.utils import Plane
 
     bounds, grid, ops = case["bounds"], case["grid"], case["ops"]
-    classes = ["hist"]
-    nt = False
+    classes = ["hist"] + (["long-history"] if case.get("long") else [])
+    nt = bool(case.get("long"))
     plane = Plane(tuple(bounds), grid)
     seq = []  # model: insertion-ordered (Box, live flag)
     removed_boxes = []
@@ -157,6 +157,18 @@ def run_hist(case):
                 e[1] = False
                 removed_boxes.append(e[2])
                 classes.append("remove")
+            elif k == "addlive":
+                # placing an object that is already placed changes nothing (the index is set-like)
+                live = [e for e in seq if e[1]]
+                if not live:
+                    continue
+                e = live[op[1] % len(live)]
+                if len(op) > 2 and op[2]:
+                    plane.extend([e[0]])
+                else:
+                    plane.add(e[0])
+                classes.append("add-of-live-object")
+                nt = True
             elif k == "readd":
                 # an object that was removed is inserted again: live once more, and the most recently inserted
                 dead = [e for e in seq if not e[1]]
@@ -242,9 +254,21 @@ def hist_cases(draw, steps):
     op = st.one_of(
         st.tuples(st.just("add"), box), st.tuples(st.just("add"), box, st.booleans()),
         st.tuples(st.just("remove"), st.integers(0, 1000)), st.tuples(st.just("readd"), st.integers(0, 1000), st.booleans()),
+        st.tuples(st.just("addlive"), st.integers(0, 1000), st.booleans()),
         st.tuples(st.just("find"), box), st.tuples(st.just("find"), box),
         st.tuples(st.just("iter")), st.tuples(st.just("len")), st.tuples(st.just("in"), st.integers(0, 1000)),
     )
+    if draw(st.integers(0, 5)) == 0:
+        # a long history: dozens of insertions, then more removals than survivors, then iteration and queries (state
+        # that only changes after many operations)
+        n = draw(st.integers(36, 90))
+        m = draw(st.integers(33, n - 2))
+        ops = [("add", draw(box)) for _ in range(n)]
+        ops += [("remove", draw(st.integers(0, 1000))) for _ in range(m)]
+        ops += [("iter",), ("find", draw(box)), ("add", draw(box)), ("iter",), ("len",)]
+        ops += draw(st.lists(op, max_size=6))
+        ops.append(("iter",))
+        return {"kind": "hist", "bounds": bounds, "grid": grid, "ops": ops, "long": True}
     ops = draw(st.lists(op, min_size=1, max_size=steps))
     return {"kind": "hist", "bounds": bounds, "grid": grid, "ops": ops}
 
